@@ -119,7 +119,7 @@ def run(ctx: core.Check):
                 "Non-trivial = not both operands degenerate points; distinct on (rule,op,operands).")
     ctx.assumptions = ["order of equal keys in numpy.sort is irrelevant to the sorted values",
                        "binary64 rounding not modelled (exact agreement on integer streams for + - *)"]
-    ctx.lean_stage(["Pun.Props.C03"])
+    ctx.lean_stage(["Pun.Lemmas.PBoxFrechet2", "Pun.Lemmas.PBoxRecip", "Pun.Props.C03"])
     cases = gen_cases(ctx)
     replies = core.model_batch("C03", [wire(c) for c in cases])
     for c, rep in zip(cases, replies):
